@@ -70,6 +70,13 @@ func cacheLookup(dir, query string) (solveResult, bool) {
 	return solveResult{Answer: "unsat", Backend: f[1], TimeS: secs, Cached: true, All: map[string]string{f[1]: "unsat"}}, true
 }
 
+func cacheLookupIf(dir, query string) (solveResult, bool) {
+	if dir == "" {
+		return solveResult{}, false
+	}
+	return cacheLookup(dir, query)
+}
+
 func cacheStore(dir, query string, r solveResult) {
 	sum := sha256.Sum256([]byte(query))
 	os.MkdirAll(dir, 0o755)
@@ -114,7 +121,31 @@ func discharge(vcs []*VC, opt runOpts) {
 					}
 				}
 				staged := false
-				if !opt.all && j.o.Expect != "fail" {
+				if !opt.all && j.o.Expect == "" && len(j.vc.facts) > 150 {
+					// stage 0: premise selection (sound: assumptions are only dropped)
+					hit := false
+					for _, strict := range []int{1, 3} {
+						sq := j.vc.slicedQuery(j.o, strict)
+						if cr, ok := cacheLookupIf(opt.cacheDir, sq); ok {
+							j.o.Result = &cr
+							hit = true
+							break
+						}
+						r = raceSolveOn(opt.scratch, fmt.Sprintf("%s.slice%v", j.o.Name, strict), sq, 2, false, backends[:2])
+						if r.Answer == "unsat" {
+							r.Backend += " (sliced)"
+							staged = true
+							if opt.cacheDir != "" {
+								cacheStore(opt.cacheDir, sq, r)
+							}
+							break
+						}
+					}
+					if hit {
+						continue
+					}
+				}
+				if !staged && !opt.all && j.o.Expect != "fail" {
 					// stage 1: the back end that decides most obligations, alone and briefly;
 					// stage 2 (below) is the full race
 					r = raceSolveOn(opt.scratch, j.o.Name, q, 2, false, backends[:1])
